@@ -95,6 +95,16 @@ CLAIMED = {
                     "deviation bound over per-rank pointer orders and nested TBB schedules, and every reduce outcome: all ranks return, rank 0 holds a minimum basis, others emit nothing.",
             "note": "trusted: the vmpi shim as a model of the MPI collectives used (validated against real mpiexec runs: collective semantics and entry-point outcomes must lie in the model's set); "
                     "P <= 7; layouts = relative order of edge-node addresses"},
+    "C11": {"level": "model_checking", "design_ref": "DESIGN.md section 3, C11",
+            "technique": "complete enumeration of a file x option matrix on the real executables, plus stateless model checking of the unmodified MPI demo on the vmpi shim (deadlock as an explicit state) for every file x option x process count, confirmed by mpiexec runs",
+            "text": "Every (program, file, option combination) of the matrix is executed; invalid files must be rejected with a diagnostic and without running an algorithm, valid ones must print the optimum "
+                    "computed by an independent Python reference. The MPI demo's 'all ranks terminate' is decided on the model for P up to 5 and cross-checked with the real binary under mpiexec.",
+            "note": "files are a fixed menu (3 valid graphs, 15 invalid variants of K4); sequential demos observed as black boxes with a 20 s watchdog"},
+    "C20": {"level": "model_checking", "design_ref": "DESIGN.md section 3, C20",
+            "technique": "exhaustive enumeration of call sequences up to a depth against a one-variable reference automaton on the real oneTBB, and of the demos' option matrix with an in-process sampling seam",
+            "text": "All sequences of up to 2 (thorough 4) calls over {1,2,3,5,16}, each in a fresh process, with active_value compared after every call and after a following library call; every "
+                    "--parallel=true option combination of both demos sampled at the moment the algorithm is announced.",
+            "note": "observation = tbb::global_control::active_value; distinct worker thread counts are recorded but not judged (oneTBB lets active workers leave lazily)"},
 }
 for k in CLAIMED:
     ENGINES[0]["serves_properties"].append(k)
